@@ -38,9 +38,10 @@ class X:
 class Decl:
     """the declaration of one leaf, read off the decisions"""
 
-    def __init__(self, ck, prog, l):
+    def __init__(self, ck, prog, l, item_names=None):
         self.ck = ck
         self.l = l
+        self.item_names = item_names
         self.exprv = [v["name"] for v in prog.find_ty("syn::Expr").adt["variants"]]
         self.litv = [v["name"] for v in prog.find_ty("syn::Lit").adt["variants"]]
         self.open = None
@@ -95,6 +96,9 @@ class Decl:
         return out
 
     def name(self, mb):
+        wk = mb + ".path.segments[0].ident#word"
+        if wk in self.l.decisions and self.item_names:
+            return self.item_names[self.l.decisions[wk]]
         var = mb + ".path.segments[0].ident.sym"
         f = (self.l.extra.get("sfacts") or {}).get(var)
         if f and f != "complex" and f[0] == "eq":
@@ -586,13 +590,14 @@ def focuses(quick):
         Focus("variant-2items", body=("Enum",), style=("Unit", "Unnamed", "Named"), nf=(0, 1), nv=(1, 1), vattrs=(1, 1), items=(0, 2), simple=True),
         Focus("two-variants", body=("Enum",), style=("Unit",), nv=(2, 2), vattrs=(0, 1), items=(0, 1), simple=True),
         Focus("word-from_word", body=("Enum",), style=("Unit",), nv=(1, 1), cattrs=(1, 1), vattrs=(1, 1), items=(1, 1), simple=True),
+        Focus("word-from_word-2", body=("Enum",), style=("Unit",), nv=(2, 2), cattrs=(1, 1), vattrs=(1, 1), items=(1, 1), simple=True, item_names=["word", "from_word", "skip"]),
         Focus("variant-field", body=("Enum",), style=("Named",), nf=(1, 2), nv=(1, 1), fattrs=(0, 1), items=(0, 1), simple=True),
     ]
     if not quick:
         fs += [
-            Focus("field-3items", body=("Struct",), style=("Named",), nf=(1, 1), fattrs=(1, 1), items=(3, 3), simple=True),
-            Focus("three-fields", body=("Struct",), style=("Named",), nf=(3, 3), fattrs=(0, 1), items=(0, 1), simple=True),
             Focus("three-variants", body=("Enum",), style=("Unit",), nv=(3, 3), vattrs=(0, 1), items=(0, 1), simple=True),
+            Focus("variant-2attrs", body=("Enum",), style=("Unit", "Unnamed", "Named"), nf=(0, 1), nv=(1, 1), vattrs=(2, 2), items=(0, 1), simple=True),
+            Focus("tuple-field-2items", body=("Struct",), style=("Unnamed",), nf=(1, 1), fattrs=(1, 1), items=(0, 2), simple=True),
         ]
     return fs
 
@@ -607,8 +612,8 @@ def job(ck, prog, natbin, focus, quick):
             ck.engine("from_meta[%s]: leaf %s %s" % (focus.tag, l.status, str(l.info)[:300]))
             continue
         out = D.outcome(I, l)
-        src = D.Src(prog, l, lambda l=l: ck.model_of(l.pc), darling=focus.only_darling)
-        dc = Decl(ck, prog, l)
+        src = D.Src(prog, l, lambda l=l: ck.model_of(l.pc), darling=focus.only_darling, item_names=focus.item_names)
+        dc = Decl(ck, prog, l, focus.item_names)
         md = Model(dc)
         exp = md.from_meta()
         text = src.item_source(focus.field_names)
@@ -666,6 +671,61 @@ def job(ck, prog, natbin, focus, quick):
     native.close()
 
 
+# ------------------------------------------------------------------------------------------------ shape words of `supports(..)`
+VALID_SHAPE_WORDS = {"any"} | {"%s_%s" % (a, b) for a in ("struct", "enum") for b in ("any", "named", "tuple", "newtype", "unit")}
+
+
+def supports_job(ck, prog, natbin, quick):
+    """`#[darling(supports(w1, w2))]` on the FromDeriveInput derive: accepted iff every word is a documented shape word"""
+    native = Native(natbin)
+    focus = Focus("supports-words", body=("Struct",), style=("Named",), nf=(1, 1), cattrs=(1, 1), items=(1, 1), simple=True, item_names=["supports"],
+                  field_names=["field_a", "field_b", "field_c"])
+    I, e, leaves = D.explore(ck, prog, "from_derive_input", focus)
+    for l in leaves:
+        if l.status not in ("returned", "panicked"):
+            ck.obligations += 1
+            ck.engine("supports: leaf %s %s" % (l.status, str(l.info)[:200]))
+            continue
+        out = D.outcome(I, l)
+        src = D.Src(prog, l, lambda l=l: ck.model_of(l.pc), darling=True, item_names=focus.item_names)
+        text = src.item_source(focus.field_names)
+        req = "(derive from_derive_input %s)" % sx_str(text)
+        it = "di*.attrs[0].meta.List.0.tokens.parsed.Ok.0[0].Meta.0"
+        lst = it + ".List.0.tokens.parsed"
+        if l.decisions.get("di*.attrs[0].meta#d") != 1 or l.decisions.get("di*.attrs[0].meta.List.0.tokens.parsed#d") != 0 or \
+                l.decisions.get("di*.attrs[0].meta.List.0.tokens.parsed.Ok.0[0]#d") != 0 or l.decisions.get(it + "#d") != 1 or l.decisions.get(lst + "#d") != 0:
+            continue        # not a well-formed `supports(..)` list: C06's subject
+        n = l.decisions.get(lst + ".Ok.0#len", 0)
+        words = []
+        plain = True
+        for i in range(n):
+            nb = "%s.Ok.0[%d]" % (lst, i)
+            wk = nb + ".Meta.0.path.segments[0].ident#word"
+            if l.decisions.get(nb + "#d") != 0 or l.decisions.get(nb + ".Meta.0#d") != 0 or wk not in l.decisions:
+                plain = False
+                break
+            words.append(D.WORDS[l.decisions[wk]])
+        if not plain:
+            continue
+        bad = [w for w in words if w not in VALID_SHAPE_WORDS]
+        ck.reach("supports:" + ("rejects" if bad else "accepts"))
+        good = (out[0] == "errors" and len(out[1]) >= 1) if bad else (out[0] == "impl")
+        if good:
+            ck.ok()
+            continue
+        ck.obligations += 1
+        nat = native.ask(req)
+        r = nat.get("result", {}) if isinstance(nat, dict) else {}
+        native_ok = (r.get("impls") == 0 and len(r.get("errors", [])) >= 1) if bad else (r.get("impls") == 1)
+        if native_ok:
+            ck.engine("supports%r: symbolic verdict %r differs from the table but the native run agrees with it (%s)" % (words, out[:1], req))
+        else:
+            ck.report("from_derive_input:supports:%s" % ("unknown-word-accepted" if bad else "valid-word-rejected"),
+                      "supports(%s): %s" % (", ".join(words), "accepted although %r is not a shape word" % bad if bad else "rejected although every word is a shape word"),
+                      {"property": "C10", "crate": "hmacro", "request": req, "words": words, "observed": nat})
+    native.close()
+
+
 def prepare(ck):
     ck.crate = "hmacro"
     quick = ck.tier == "quick"
@@ -681,7 +741,11 @@ def prepare(ck):
     ck.outside = ["the five element-level derives' own options (attributes, forward_attrs, supports, from_ident, magic members): their totality is C06, their shape words C18(b)",
                   "option values of other expression forms (their conversions are C11 / C13)", "longer option lists than the bounds"]
     ck.assumptions = ["the parse of a string literal option value (path, where clause) is an uninterpreted outcome", "as C06 (quote runtime, ident_case)"]
-    return [(lambda sub, f=f: job(sub, prog, natbin, f, quick)) for f in fs]
+    jobs = [(lambda sub, f=f: job(sub, prog, natbin, f, quick)) for f in fs]
+    if not only:
+        ck.programs.add("darling_core::derive::from_derive_input (supports words)")
+        jobs.append(lambda sub: supports_job(sub, prog, natbin, quick))
+    return jobs
 
 
 def main():
